@@ -28,7 +28,10 @@ def quantize_real(vc):
     x = symbolic_array('x', (n,))
     m, ds, tm, ts = Real('data_mean'), Real('data_std'), Real('target_mean'), Real('target_std')
     vc.assume(And(ds >= 0, ts >= 0))
+    # "for every input" includes huge finite samples: the float -> int64 cast must only ever see values already clipped to the code range
+    vc.check_int_overflow = True
     out = vc.call(Q + ':quantize_real', x, target_mean=tm, target_std=ts, num_bits=b, data_mean=m, data_std=ds)
+    vc.check_int_overflow = False
     vc.cover('reachable')
     vc.ensure('C09/quantize_real/exc/none', out.ok)
     if not out.ok:
